@@ -392,9 +392,10 @@ type_decl
         {
             ident_hash_elem_t *ihe;
 
-            ihe = find_or_add_ident(
-                PROG_STRING($<number>$ = store_prog_string($3)),
-                FOA_GLOBAL_SCOPE);
+            /* store first: store_prog_string() may move the string table that
+             * PROG_STRING() indexes */
+            $<number>$ = store_prog_string($3);
+            ihe = find_or_add_ident(PROG_STRING($<number>$), FOA_GLOBAL_SCOPE);
             if (ihe->dn.class_num == -1)
                 ihe->sem_value++;
             else {
